@@ -337,5 +337,10 @@ func classify(tok string, base int, ff string) (want string, kind string, ok boo
 		w, good := floatWant(mant, exp, formatOf(marker, ff))
 		return w, k, good
 	}
+	if isDigits(body, 10) {
+		// only decimal digits, some of them not digits of *read-base*: in CL such a
+		// character is alphabetic, the token has no number syntax and is a symbol
+		return "s:" + strconv.Quote(tok), "digits-outside-read-base", true
+	}
 	return "s:" + strconv.Quote(tok), "symbol", true
 }
